@@ -31,14 +31,20 @@ class ATLO(tlo.TraitListObject, ListModel):
 @contextlib.contextmanager
 def list_env():
     import props.c05 as c05
+    import traits.ctraits as ctm
+    import traits.trait_set_object as tso_
+    import traits.trait_dict_object as tdo_
     old_tlo = tt.TraitListObject
     old_info = tt.List.full_info
     tt.TraitListObject = ATLO
     tt.List.full_info = lambda self, object, name, value: "a list (description stubbed)"
+    # the compiled default_value_for builds List defaults from the class registered with the extension
+    ctm._list_classes(ATLO, tso_.TraitSetObject, tdo_.TraitDictObject)
     try:
         with c05.sym_env():
             yield
     finally:
+        ctm._list_classes(tlo.TraitListObject, tso_.TraitSetObject, tdo_.TraitDictObject)
         tt.TraitListObject = old_tlo
         tt.List.full_info = old_info
 
